@@ -166,6 +166,9 @@ func TestVerifC08(t *testing.T) {
 
 	// (2) the whole Connect
 	for _, s := range c08Scripts(types) {
+		if ltsAbort() {
+			break
+		}
 		o.line("lts "+s, ltsPlay(s))
 	}
 }
